@@ -275,6 +275,7 @@ class Sim:
             "p_leaf_op": rng.choice([0.1, 0.3]),
             "p_inner_op": rng.choice([0.2, 0.4, 0.6]),
             "alias": rng.random() < 0.7,
+            "iadd": rng.random() < 0.5,
         }
 
     def new_world_spec(self, rng, cfg):
@@ -332,6 +333,9 @@ class Sim:
     def gen_op(self, rng, cfg, sess):
         op = self._gen_op(rng, cfg, sess)
         w = sess.world
+        if cfg.get("iadd") and rng.random() < 0.08:
+            # `obj.position += d` on any member of the forest (length preserving)
+            return {"op": "iadd_position", "o": op["o"], "d": gen.vec3(rng)}
         if cfg.get("alias", True) and rng.random() < 0.3 and "as_array" not in op and op["op"] != "reset_path":
             op["as_array"] = True
         if cfg.get("alias", True) and rng.random() < 0.12 and op["op"] in ("set_position", "rotate", "move"):
@@ -345,12 +349,16 @@ class Sim:
             if members:
                 j = rng.choice(members)
                 N = len(w.objs[o]._position)
+                tok = pathops.posof_token(rng, j, N)
+                if tok.get("wrap") in ("list", "tuple") and op["op"] != "set_position" and \
+                        op.get("start") not in (0, -N):
+                    tok.pop("wrap")  # a wrapped view is vector input: it must not change the path length here
                 if op["op"] == "set_position":
-                    op["v"] = {"posof": j}
+                    op["v"] = tok
                 elif op["op"] == "rotate" and (N == 1 or op.get("start") in (0, -N)):
-                    op["anchor"] = {"posof": j}
+                    op["anchor"] = tok
                 elif op["op"] == "move" and (N == 1 or op.get("start") in (0, -N)):
-                    op["d"] = {"posof": j}
+                    op["d"] = tok
         return op
 
     def _gen_op(self, rng, cfg, sess):
